@@ -263,6 +263,24 @@ class Driver:
         return lines
 
 
+PLUGIN_MODEL_CFGS = ["only-table", "only-footnotes", "only-task_lists", "only-def_list", "only-abbr"]
+
+
+def plugin_model_tie(ctx, n_each, cfgs=None, extra_docs=None):
+    """Correspondence of the concrete Lean parser model on the PLUGIN configurations it transcribes (table, footnotes with the
+    footnotes hook, task_lists hook, def_list, abbr): documents made of the plugins' own syntax (gen.md_plugins) mixed with
+    ordinary ones, full token trees of md(s) with renderer=None."""
+    import gen
+    total = 0
+    for name in (cfgs or PLUGIN_MODEL_CFGS):
+        plug = name.split("-", 1)[1]
+        docs = [gen.md_plugins(ctx.rng, [plug]) if ctx.rng.random() < 0.7 else gen.md_any(ctx.rng, 6) for _ in range(n_each)]
+        if extra_docs:
+            docs += list(extra_docs.get(plug, []))
+        total += model_tie(ctx, docs, name, "doc")
+    return total
+
+
 # ------------------------------------------------------------------------------------------------
 # known findings
 
